@@ -23,3 +23,9 @@ claim("C07",
   "Decides, for all keys/COUNT/BEARER/DIRECTION/lengths at once, the table and layout facts on which conformance of NEA1/NIA1/NEA2/NIA2 rests: 512 S-box entries, MULalpha/DIValpha exponents, S1/S2 recombination, LFSR taps, FSM update, key/IV loading, 32+1 clocks, IV and counter-block bit layouts, key word order, algorithm dispatch, NEA0 identity, whole-message coverage of the keystream (shift-count ranges, tail octets, block counts for every LENGTH mod 64), and re-initialisation of the generator on every call.",
   "Level 'other': necessary structural conditions. Not decided: bit-exact equality with the 3GPP algorithms as a whole (no independent implementation is executed); AES/CTR/CMAC are trusted (crypto/aes, crypto/cipher, aead/cmac). A rewrite of the SNOW 3G core into another shape (e.g. table-driven MULalpha) is reported as not matching the recognised structure.",
   "DESIGN.md §5 C07")
+
+claim("C05",
+  "argument-role tables over canonical SSA access paths (with same-package helper inlining to depth 3): FC constants, (P, KDFLen(P)) pairing, key-chaining by value identity, output slices, OP/OPc branch control dependence",
+  "Decides the wiring of the whole key hierarchy for all inputs at once: which FC, which parameters in which order with the length of the same value, which key feeds which derivation (value identity in SSA, not names), which 16 octets become K_NASenc/K_NASint and in which field they land, that OP is used exactly when OPc is absent and RES* is computed by the same Milenage instance with (mcc, mnc). A wrong constant, length suffix, slice or swapped argument - the failures the property names - is a violated obligation naming the call.",
+  "Level 'other'. Trusted: HMAC-SHA-256, hex decoding and github.com/wmnsk/milenage (f2345, OPc computation, RES* incl. FC 6B). Not decided: numerical equality with a network-side derivation.",
+  "DESIGN.md §5 C05")
